@@ -53,11 +53,29 @@ _TEMPLATED_COORDS = ("working_line_no", "working_line_pos", "templated_slice", "
 _R33F_SCOPES = ("src/sqlfluff/rules/", "src/sqlfluff/utils/reflow/", "src/sqlfluff/core/rules/")
 
 
+def _r33f_value_nodes(e: ast.AST):
+    """The nodes of ``e`` whose value can become part of the value of ``e``: everything except the tests that only
+    *select* (the ``if`` clauses of a comprehension / generator, the test of a conditional expression).  A
+    coordinate read there decides which element / arm is taken, exactly as the test of an ``if`` statement or a
+    ``for .. if ..: break`` search does, and is not written into the text."""
+    todo = [e]
+    while todo:
+        n = todo.pop()
+        yield n
+        for fld, val in ast.iter_fields(n):
+            if (isinstance(n, ast.comprehension) and fld == "ifs") or (isinstance(n, ast.IfExp) and fld == "test"):
+                continue
+            if isinstance(val, ast.AST):
+                todo.append(val)
+            elif isinstance(val, list):
+                todo.extend(x for x in val if isinstance(x, ast.AST))
+
+
 def _r33f_reads(cfg, e: ast.AST, at, depth: int = 0, seen=None):
     """Templated-space coordinate reads that can flow into expression ``e`` (through locals, all origins)."""
     seen = seen if seen is not None else set()
     out = []
-    for n in ast.walk(e):
+    for n in _r33f_value_nodes(e):
         if isinstance(n, ast.Attribute) and n.attr in _TEMPLATED_COORDS:
             out.append(n)
         elif isinstance(n, ast.Name) and isinstance(n.ctx, ast.Load) and depth < 5:
@@ -811,6 +829,50 @@ VARIANTS = [
         "                assert previous.pos_marker\n",
         "                assert previous.pos_marker\n                prev_line = previous.pos_marker.working_line_no\n",
         "QUIET", None, "the templated line is read but not written into the description",
+    ),
+    # behaviour-preserving refactors: must stay quiet (R33f)
+    Variant(
+        'quiet-r33f-removal-result-found-with-next', "src/sqlfluff/utils/reflow/elements.py",
+        '                        for res in existing_results:\n                            if (\n                                res.anchor\n                                and res.anchor.pos_marker\n                                and res.anchor.pos_marker.templated_slice.stop\n                                == temp_idx\n                            ):\n                                break\n                        else:  # pragma: no cover\n                            raise NotImplementedError("Could not find removal result.")\n',
+        '                        res = next(\n                            (\n                                r\n                                for r in existing_results\n                                if r.anchor\n                                and r.anchor.pos_marker\n                                and r.anchor.pos_marker.templated_slice.stop == temp_idx\n                            ),\n                            None,\n                        )\n                        if res is None:  # pragma: no cover\n                            raise NotImplementedError("Could not find removal result.")\n',
+        "QUIET", None, 'for/else search as next() over a generator: the templated offset still only selects the result whose description is reused',
+    ),
+    Variant(
+        'quiet-r33f-crash-line-from-the-source-property', "src/sqlfluff/core/rules/base.py",
+        '                exception_line, _ = context.segment.pos_marker.source_position()\n',
+        '                crash_marker = context.segment.pos_marker\n                exception_line = crash_marker.line_no\n',
+        "QUIET", None, 'PositionMarker.line_no is source_position()[0]; marker through a local',
+    ),
+    Variant(
+        'quiet-r33f-crash-line-by-index', "src/sqlfluff/core/rules/base.py",
+        '                exception_line, _ = context.segment.pos_marker.source_position()\n',
+        '                exception_line = context.segment.pos_marker.source_position()[0]\n',
+        "QUIET", None, 'tuple unpacking as indexing',
+    ),
+    Variant(
+        'quiet-r33f-al08-description-by-format', "src/sqlfluff/rules/aliasing/AL08.py",
+        '                        description=(\n                            "Reuse of column alias "\n                            f"{column_alias.raw!r} from line "\n                            f"{previous.pos_marker.line_no}."\n                        ),\n',
+        '                        description="Reuse of column alias {!r} from line {}.".format(\n                            column_alias.raw, previous.pos_marker.line_no\n                        ),\n',
+        "QUIET", None, 'f-string as str.format',
+    ),
+    Variant(
+        'quiet-r33f-jj01-message-and-slice-locals', "src/sqlfluff/rules/jinja/JJ01.py",
+        '            source_fixes = [\n                SourceFix(\n                    fixed,\n                    slice(\n                        src_idx + position,\n                        src_idx + position + len(stripped),\n                    ),\n                    # This position in the templated file is rough, but\n                    # close enough for sequencing.\n                    raw_seg.pos_marker.templated_slice,\n                )\n            ]\n\n            results.append(\n                LintResult(\n                    anchor=raw_seg,\n                    description=f"Jinja tags should have a single "\n                    f"whitespace on either side: {stripped}",\n',
+        '            rough_slice, message = (\n                raw_seg.pos_marker.templated_slice,\n                f"Jinja tags should have a single whitespace on either side: {stripped}",\n            )\n            source_fixes = [\n                SourceFix(\n                    fixed,\n                    slice(\n                        src_idx + position,\n                        src_idx + position + len(stripped),\n                    ),\n                    rough_slice,\n                )\n            ]\n\n            results.append(\n                LintResult(\n                    anchor=raw_seg,\n                    description=message,\n',
+        "QUIET", None, 'templated slice and message bound by one tuple assignment; only the message reaches the description',
+    ),
+    # ---- breaking twins of the R33f spellings above
+    Variant(
+        'r33f-removal-result-described-by-its-templated-offset', "src/sqlfluff/utils/reflow/elements.py",
+        '                        for res in existing_results:\n                            if (\n                                res.anchor\n                                and res.anchor.pos_marker\n                                and res.anchor.pos_marker.templated_slice.stop\n                                == temp_idx\n                            ):\n                                break\n                        else:  # pragma: no cover\n                            raise NotImplementedError("Could not find removal result.")\n                        existing_results.remove(res)\n                        new_results.append(\n                            LintResult(\n                                res.anchor,\n                                fixes=res.fixes + [LintFix("delete", last_whitespace)],\n                                description=res.description,\n',
+        '                        res, found_at = next(\n                            (\n                                (r, r.anchor.pos_marker.templated_slice.stop)\n                                for r in existing_results\n                                if r.anchor\n                                and r.anchor.pos_marker\n                                and r.anchor.pos_marker.templated_slice.stop == temp_idx\n                            ),\n                            (None, None),\n                        )\n                        if res is None:  # pragma: no cover\n                            raise NotImplementedError("Could not find removal result.")\n                        existing_results.remove(res)\n                        new_results.append(\n                            LintResult(\n                                res.anchor,\n                                fixes=res.fixes + [LintFix("delete", last_whitespace)],\n                                description=f"{res.description} (at {found_at})",\n',
+        "R33f", 'ReflowPoint.respace_point', 'twin of quiet-r33f-removal-result-found-with-next: the element of the generator carries the templated offset into the text',
+    ),
+    Variant(
+        'r33f-jj01-conditional-arm-embeds-the-offset', "src/sqlfluff/rules/jinja/JJ01.py",
+        '                    description=f"Jinja tags should have a single "\n                    f"whitespace on either side: {stripped}",\n',
+        '                    description=f"Jinja tags should have a single "\n                    f"whitespace on either side: {stripped}"\n                    + (f" at {raw_seg.pos_marker.templated_slice.start}" if raw_seg.pos_marker.templated_slice else ""),\n',
+        "R33f", 'Rule_JJ01._eval', 'a conditional expression whose taken arm embeds the templated offset (the test alone would not)',
     ),
     Variant(
         "al08-describes-with-the-templated-line-local", "src/sqlfluff/rules/aliasing/AL08.py",
